@@ -1,13 +1,18 @@
 #!/bin/sh
-# usage: tools/seedtest.sh <seed-dir> <Cxx> [<Cyy> ...] : applies <seed-dir>/patch.diff to /repo, runs the checks, undoes it
+# usage: tools/seedtest.sh <seed-dir (absolute)> <Cxx> [<Cyy> ...]
+# Applies <seed-dir>/patch.diff to /repo, runs the named checks, undoes the patch.  The evidence files are
+# saved before and restored afterwards: evidence/ must only ever hold records of runs on the unchanged tree.
 d=$1; shift
 cd /repo || exit 2
 git diff --quiet || { echo "repo working tree not clean"; exit 2; }
 git apply "$d/patch.diff" || exit 2
 cd /verif
+sav=$(mktemp -d /verif/out/evsave.XXXXXX)
+cp -a evidence/. "$sav"/
 for c in "$@"; do
   echo "--- $c on $(basename $d)"
   ./check $c 2>/dev/null | grep -E "^(VIOLATION|OK|KNOWN)" | cut -c1-220
 done
 git -C /repo checkout -- .
 git -C /repo status --short | head -3
+rm -rf evidence && mkdir evidence && cp -a "$sav"/. evidence/ && rm -rf "$sav"
